@@ -218,7 +218,7 @@ fn cmd_check(args: &[String], out: &mut std::fs::File) -> i32 {
         let v = o.violations[0].clone();
         let class = v.class();
         let make = || monitors::make(plan.id);
-        let min = replay::minimise(&o.log, o.genesis_len, &o.foreign, &class, &make, 600);
+        let min = replay::minimise(&o.log, o.genesis_len, &o.foreign, &class, &make, 3000);
         let kept_genesis = min.len().saturating_sub(0);
         let _ = kept_genesis;
         // recompute detail from the minimised replay
